@@ -388,7 +388,7 @@ PROPS = {
     'C04': {
         'proofs': ['Ww.Proofs.C04Lemmas', 'Ww.Proofs.C04', 'Ww.Proofs.C04Abs', 'Ww.Proofs.GenTie.Login', 'Ww.Proofs.GenTie.C04'],
         'gen_sections': HANDLER_SECTIONS + [],
-        'drivers': [{'name': 'c04'}],
+        'drivers': [{'name': 'c04', 'timeout': 6000}],
         'reasons': ['C04.'],
         'class_fields': {'url04': ['ok', 'rok'], 'valid04': ['rel', 'abs', 'regex'], 'canon04': ['mode'], 'redir04': [], 'esc04': ['pathunescok', 'queryunescok'], 'whatwg04': ['expect'],
                          'loc04': ['mode', 'emitter', 'status', 'hasembedded'], 'logscan': ['kind']},
